@@ -268,7 +268,7 @@ func (m *Msg) Pack(b []byte, compression bool, size int) (int, error) {
 		size = 512
 	}
 
-	var msgHdr = m.Header
+	truncated := false
 	off := 12
 	if len(b) < off {
 		return 0, newSectionErr("header", ErrSmallBuffer)
@@ -287,46 +287,53 @@ func (m *Msg) Pack(b []byte, compression bool, size int) (int, error) {
 		compressionMap = newCompressionMap()
 		defer releaseCompressionMap(compressionMap)
 	}
+	// The section counts in the header are the numbers of the records
+	// that were actually packed.
+	h.questions, h.answers, h.authorities, h.additionals = 0, 0, 0, 0
 	for _, q := range m.Questions {
 		if size > 0 && off+q.Len() > size {
-			msgHdr.Truncated = true
+			truncated = true
 			continue
 		}
 		var err error
 		if off, err = q.pack(b, off, compressionMap); err != nil {
 			return off, newSectionErr("question", err)
 		}
+		h.questions++
 	}
 
 	for _, r := range m.Answers {
 		if size > 0 && off+r.packLen() > size {
-			msgHdr.Truncated = true
+			truncated = true
 			continue
 		}
 		var err error
 		if off, err = r.pack(b, off, compressionMap); err != nil {
 			return off, newSectionErr("answer", err)
 		}
+		h.answers++
 	}
 	for _, r := range m.Authorities {
 		if size > 0 && off+r.packLen() > size {
-			msgHdr.Truncated = true
+			truncated = true
 			continue
 		}
 		var err error
 		if off, err = r.pack(b, off, compressionMap); err != nil {
 			return off, newSectionErr("authority", err)
 		}
+		h.authorities++
 	}
 	for _, r := range m.Additionals {
 		if size > 0 && off+r.packLen() > size {
-			msgHdr.Truncated = true
+			truncated = true
 			continue
 		}
 		var err error
 		if off, err = r.pack(b, off, compressionMap); err != nil {
 			return off, newSectionErr("additional", err)
 		}
+		h.additionals++
 	}
 
 	if edns0Opt != nil {
@@ -335,8 +342,12 @@ func (m *Msg) Pack(b []byte, compression bool, size int) (int, error) {
 		if off, err = edns0Opt.pack(b, off, compressionMap); err != nil {
 			return off, newSectionErr("additional", err)
 		}
+		h.additionals++
 	}
 
+	if truncated {
+		h.bits |= headerBitTC
+	}
 	h.pack(b[:12])
 	return off, nil
 }
